@@ -3,7 +3,18 @@ usage: worker.py <props-module> <cases.jsonl>   -> one JSON observation per line
 import importlib
 import json
 import os
+import signal
 import sys
+
+
+class CaseTimeout(BaseException):
+    pass
+
+
+def _alarm(signum, frame):
+    raise CaseTimeout()
+
+CASE_TIMEOUT = float(os.environ.get('VERIF_CASE_TIMEOUT', '30'))
 
 ROOT = os.path.dirname(os.path.dirname(os.path.abspath(__file__)))
 sys.path.insert(0, ROOT)
@@ -14,13 +25,33 @@ def main():
     out = sys.stdout
     if len(sys.argv) > 3 and sys.argv[3] == '--shrink':
         case = json.loads(open(sys.argv[2]).read())
-        out.write(json.dumps(mod.shrink(case)) + '\n')
+        signal.signal(signal.SIGALRM, _alarm)
+        signal.setitimer(signal.ITIMER_REAL, 120)          # best effort: give up shrinking after two minutes
+        try:
+            small = mod.shrink(case)
+        except CaseTimeout:
+            small = case
+        out.write(json.dumps(small) + '\n')
         return
+    timeouts = 0
     with open(sys.argv[2]) as f:
         for line in f:
             case = json.loads(line)
+            if timeouts >= 3:
+                # the implementation keeps hanging: the first timeouts are reported, do not spend minutes on the rest
+                out.write(json.dumps({'_harness_exception': 'skipped after 3 timeouts in this worker', '_skipped': True}) + '\n')
+                continue
             try:
-                obs = mod.impl(case)
+                signal.signal(signal.SIGALRM, _alarm)
+                signal.setitimer(signal.ITIMER_REAL, CASE_TIMEOUT)
+                try:
+                    obs = mod.impl(case)
+                finally:
+                    signal.setitimer(signal.ITIMER_REAL, 0)
+            except CaseTimeout:
+                timeouts += 1
+                obs = {'_harness_exception': 'CaseTimeout: the implementation did not finish this case within %.0f s' % CASE_TIMEOUT,
+                       '_timeout': CASE_TIMEOUT}
             except BaseException as e:  # harness bug or catastrophic failure: make it visible, keep alignment
                 import traceback
                 obs = {'_harness_exception': '%s: %s' % (type(e).__name__, e),
